@@ -105,6 +105,8 @@ def verify_contract(reg: Registry, c: Contract, cfg: Config) -> FunctionReport:
             if gname in it.ghost and gval is None:
                 continue  # already established by the contract's setup
             it.ghost[gname] = gval.make(it, f"ghost:{gname}") if hasattr(gval, "make") else gval
+        if getattr(c, "bounded_note", None):
+            path.bounded_inputs.add(c.bounded_note)  # the contract itself states a finite scope: its obligations are labelled bounded, never counted as proved
         path.inputs = args
         pre = C.snapshot(args)
         path.model_hook = lambda m, _a=pre, _it=it: C.concretize_inputs(_a, m, _it.abstract_log)
